@@ -267,6 +267,8 @@ class IH5CrashEngine:
             k = 0 if g.random() < 0.2 else g.choice([1, 1, 2, 3, 4, 5, 6, 8, 10, 13, 17, 22, 30])
             mode = g.choice([0, 1, 2, 4, 4])
             cr = {"op": "crash", "k": k, "mode": mode}
+            if k > 0 and g.random() < 0.25:
+                cr = {"op": "ioerr", "k": k, "errno": g.choice([28, 5]), "sticky": g.random() < 0.6}
             reopen = [{"op": "open", "rec": i, "mode": g.choice(["r+", "a"]), "by": "name"} for i in recs]
             # place the crash, and somewhat later (after the window) the re-opens
             gap = g.randint(1, 6)
@@ -401,6 +403,29 @@ class IH5CrashEngine:
                         arm(w, op)
                         armed = True
                         continue
+                    if op["op"] == "ioerr":
+                        # disk error (ENOSPC/EIO) at the k-th mutating call of the next operation,
+                        # then the process gives up (dies) at the next API boundary
+                        if trace or i + 1 >= len(ops) or ops[i + 1]["op"] in ("crash", "ioerr"):
+                            continue
+                        w.count_fault("enospc" if op.get("errno", 28) == 28 else "eio")
+                        w.sh.reset()
+                        w.sh.set_err(int(op["k"]), int(op.get("errno", 28)), bool(op.get("sticky", True)))
+                        with open(progress, "w") as f:
+                            f.write(str(i + 1))
+                        w.io_fault_active = True
+                        try:
+                            w.step(i + 1, ops[i + 1])
+                        except (A.Violation, A.SimRunaway):
+                            pass  # under an injected I/O error only C02/C11 are judged (by the next epoch)
+                        except Exception:
+                            pass
+                        fired = any(e and e[0] == "ERR" for e in w.sh.drain())
+                        if fired:
+                            w.probe("io_error_fired")
+                        w.sh.set_err(0, 0, False)
+                        flush_fault_counters()
+                        os._exit(137)
                     if trace:
                         w.sh.reset()
                         w.sh.set_trace(True)
